@@ -2,6 +2,7 @@ package main
 
 import (
 	"fmt"
+	"os"
 	"path/filepath"
 	"sort"
 	"strings"
@@ -20,6 +21,8 @@ type pathCase struct {
 	extras  bool
 	gof     bool
 	wapi    bool // Go function that writes through the documented OutIP(port).Write()
+	link    bool // the input path goes through a symbolic link to a directory and back out of it with ".."
+	lextras bool // some of the additional files are symbolic links
 }
 
 var c13Prefixes = []string{"", "./", "../", "../../", "ABS/"}
@@ -57,7 +60,7 @@ func oddSegment(p string) bool {
 func c13(args []string) {
 	c := chk.New("C13", "exploration", args)
 	c.Build(false)
-	c.Rule("one-task workflows, one child per case, each in a fresh directory three levels below its scratch root: the output path and the input path are drawn from the grammar prefix {'', ./, ../, ../../, ABS/} x 0-2 directory segments {d, d.x, a-b_c, 0, ..., d.., ..d, __parent__, __fsroot__, x__parent__y, .hid} x file names {f, f.txt, .h, f..g, __parent__, a__fsroot__b, ..x} (thorough: every grammar path as output and as input; quick: a sample) plus random long paths; destination directories of ../ and absolute outputs are pre-created, sub-directories of the working directory are not; one case in five is a Go function interpreting the same protocol in-process, a further set are Go functions that write through the documented OutIP(port).Write() API; half of the command cases create additional files (one in a not yet existing sub-directory, one sorting after it); oracle: after exit 0 the unique content written at the output placeholder is found at exactly clean(wd/P) (or P if absolute) and nowhere else below the scratch root, the command could read its input through the input placeholder, every additional file is at the same relative place under the working directory. distinct_nontrivial = distinct (output path, input path, extras, command/Go function) cases that ran to completion")
+	c.Rule("one-task workflows, one child per case, each in a fresh directory three levels below its scratch root: the output path and the input path are drawn from the grammar prefix {'', ./, ../, ../../, ABS/} x 0-2 directory segments {d, d.x, a-b_c, 0, ..., d.., ..d, __parent__, __fsroot__, x__parent__y, .hid} x file names {f, f.txt, .h, f..g, __parent__, a__fsroot__b, ..x} (thorough: every grammar path as output and as input; quick: a sample) plus random long paths, input paths that leave a symlinked directory with '..' (a decoy file sits at the lexically cleaned path) and additional files that are symbolic links; destination directories of ../ and absolute outputs are pre-created, sub-directories of the working directory are not; one case in five is a Go function interpreting the same protocol in-process, a further set are Go functions that write through the documented OutIP(port).Write() API; half of the command cases create additional files (one in a not yet existing sub-directory, one sorting after it); oracle: after exit 0 the unique content written at the output placeholder is found at exactly clean(wd/P) (or P if absolute) and nowhere else below the scratch root, the command could read its input through the input placeholder, every additional file is at the same relative place under the working directory. distinct_nontrivial = distinct (output path, input path, extras, command/Go function) cases that ran to completion")
 	c.Assume("scratch root, working directory and absolute area are on one file system", "paths with a directory segment ending in '..' (fixed defect 133a9ef: '../' was matched as a substring) carry their own signature suffix so that a regression there is told apart from other failures")
 	rng := c.Rand("c13")
 	g := c13Grammar()
@@ -113,6 +116,13 @@ func c13(args []string) {
 	for i := 0; i < c.Pick(30, 250); i++ {
 		cases = append(cases, pathCase{out: g[rng.Intn(len(g))], in: g[rng.Intn(len(g))], gof: true, wapi: true})
 	}
+	// input paths through a symlinked directory ("lnk/../ref/i.txt": ".." is resolved by the kernel relative to the
+	// link's target, not lexically; a decoy file sits where lexical cleaning would point), and additional files
+	// that are symbolic links
+	for k := 0; k < c.Pick(6, 20); k++ {
+		cases = append(cases, pathCase{out: []string{"o.txt", "d/o.txt", "../o.txt"}[k%3], in: "lnk/../ref/i.txt", link: true, gof: k%4 == 3})
+		cases = append(cases, pathCase{out: []string{"o.txt", "d/o.txt", "ABS/o.txt"}[k%3], in: "i.txt", extras: true, lextras: true})
+	}
 	run.Parallel(len(cases), func(i int) {
 		pc := cases[i]
 		root := c.CaseDir()
@@ -148,15 +158,23 @@ func c13(args []string) {
 		var extras []string
 		if pc.extras {
 			extras = []string{"side.log", "sub/deep/x.log", "zz.log"}
+			if pc.lextras {
+				extras = append(extras, "latest.lnk@@side.log", "sub/deep/cur.lnk@@x.log")
+			}
 			opts["extra"] = strings.Join(extras, ",")
 		}
 		s.Procs = append(s.Procs, &spec.Proc{Name: "src", Kind: spec.KFileSource, Files: []string{in}},
 			&spec.Proc{Name: "P", Kind: kind, WriteAPI: pc.wapi, Cmd: spec.BuildCmd("P", []spec.PortDecl{{Name: "in"}}, []spec.PortDecl{{Name: "out"}}, nil, nil, opts), Outs: []*spec.Out{{Port: "out", Pattern: out}}})
 		s.Conns = append(s.Conns, &spec.Conn{From: "src.out", To: "P.in"})
+		if pc.link {
+			s.Links = map[string]string{"lnk": "store/proj/data"}
+			s.Dirs = append(s.Dirs, "store/proj/data")
+			s.Sources = map[string]string{"store/proj/ref/i.txt": "input of case\n", "ref/i.txt": "DECOY at the lexically cleaned path\n"}
+		}
 		cs := &run.Case{Root: root, Bin: c.Bin, Spec: s, WdRel: wdRel, Env: map[string]string{"SCIPIPE_BUFSIZE": "4"}}
 		c.Eval(1)
 		res := cs.Run()
-		desc := map[string]interface{}{"output_path": pc.out, "input_path": pc.in, "extras": pc.extras, "gofunc": pc.gof, "write_api": pc.wapi, "spec": s}
+		desc := map[string]interface{}{"output_path": pc.out, "input_path": pc.in, "extras": pc.extras, "gofunc": pc.gof, "write_api": pc.wapi, "input_through_symlinked_dir": pc.link, "symlink_extras": pc.lextras, "spec": s}
 		known := oddSegment(pc.out) || oddSegment(pc.in)
 		sigSfx := ""
 		if known {
@@ -206,6 +224,13 @@ func c13(args []string) {
 			ps = append(ps, fmt.Sprintf("the file written at the output placeholder is at %v, declared path resolves to %s", found, exp))
 		}
 		for _, ex := range extras {
+			if k := strings.Index(ex, "@@"); k > 0 {
+				target, err := os.Readlink(filepath.Join(wdAbs, ex[:k]))
+				if err != nil || target != ex[k+2:] {
+					ps = append(ps, fmt.Sprintf("additional symbolic link %s is not at the same relative location under the working directory (readlink: %q, %v)", ex, target, err))
+				}
+				continue
+			}
 			e, ok := snap[filepath.Join(wdRel, ex)]
 			if !ok || e.Sha != vproto.Sha(vproto.ExtraContent("P", ex)) {
 				ps = append(ps, "additional file "+ex+" is not at the same relative location under the working directory")
@@ -218,7 +243,7 @@ func c13(args []string) {
 			c.Violation("file-not-at-declared-path"+sigSfx, fmt.Sprintf("output path %q, input path %q: %s", pc.out, pc.in, strings.Join(ps, "; ")), desc)
 			return
 		}
-		c.Nontrivial(fmt.Sprintf("%s|%s|%v|%v|%v", pc.out, pc.in, pc.extras, pc.gof, pc.wapi))
+		c.Nontrivial(fmt.Sprintf("%s|%s|%v|%v|%v|%v|%v", pc.out, pc.in, pc.extras, pc.gof, pc.wapi, pc.link, pc.lextras))
 		c.Count("cases_go_function_write_api", map[bool]int{true: 1, false: 0}[pc.wapi])
 		c.Count("cases_with_additional_files", map[bool]int{true: 1, false: 0}[pc.extras])
 		if i%80 == 0 {
